@@ -217,7 +217,11 @@ func (c *Ctx) ForceSample(v interface{}) {
 // Fail records a mismatch. order is the case's position in the canonical
 // enumeration order (smaller = simpler); class is the canonical class key.
 func (c *Ctx) Fail(order int64, kind, class string, cs interface{}, got, want string) {
-	atomic.AddInt64(&c.nviol, 1)
+	if n := atomic.AddInt64(&c.nviol, 1); n > 3000 && !c.Known[class] {
+		// a badly broken tree: enough cases are kept already; later ones are only counted
+		// (encoding millions of cases would take minutes)
+		return
+	}
 	raw, err := json.Marshal(cs)
 	if err != nil {
 		panic(fmt.Sprintf("mc: cannot encode case: %v", err))
